@@ -283,7 +283,7 @@ def P_obs_before(r, leaf, k):
     return nodes[path[-1] - 1]["obs"]
 
 
-def seed_groups(results, seeds=(0, 1, 7), per_tree=3, rng=None, workdir="/tmp"):
+def seed_groups(results, seeds=(0, 1, 7), per_tree=3, rng=None, workdir="/tmp", inspect_only=()):
     """sampled complete histories, each replayed in one subprocess per hash seed"""
     import json as _json
     import os as _os
@@ -296,6 +296,9 @@ def seed_groups(results, seeds=(0, 1, 7), per_tree=3, rng=None, workdir="/tmp"):
             continue
         for n in (leaves if len(leaves) <= per_tree else rng.sample(leaves, per_tree)):
             jobs.append({"def": r["d"], "sched": P.node_schedule(r, n), "lang": r["lang"], "lazy": bool(r["env"].get("lazy"))})
+    for d in inspect_only:          # definitions that are only inspected (they cannot be conducted)
+        for lang in ("yaql", "jinja"):
+            jobs.append({"def": d, "sched": [], "lang": lang, "lazy": False, "inspect_only": True})
     if not jobs:
         return [], []
     script = _os.path.join(_os.path.dirname(_os.path.abspath(__file__)), "seedrun.py")
@@ -333,6 +336,7 @@ def seed_groups(results, seeds=(0, 1, 7), per_tree=3, rng=None, workdir="/tmp"):
                 break
             ms.append({"role": "seed%s" % sd, "fin": f, "sched": j["sched"]})
         if not bad:
-            groups.append({"kind": "seed", "def": X.tla_def(j["def"]), "members": ms,
+            groups.append({"kind": "seed", "def": ({"name": j["def"]["name"]} if j.get("inspect_only") else X.tla_def(j["def"])),
+                           "members": ms,
                            "replay": {"def": j["def"], "lang": j["lang"], "schedule": j["sched"]}})
     return groups, errs
